@@ -29,6 +29,9 @@ Proof.
     cbn in U |- *; rewrite ?N.eqb_refl; cbn; eqb_hyps;
     first [ solve [intros X; discriminate X]
           | solve [intros X; left; split; [exact X | reflexivity]]
+          | solve [intros X; apply andb_prop in X as [XW X]; apply orb_prop in X as [X|X];
+                   [left; split; [rewrite XW, X; reflexivity|reflexivity]
+                   |right; left; repeat split; auto; now apply N.eqb_eq]]
           | try split_frame Q1 Q2; cbn in U |- *;
             first [ solve [intros X; discriminate X]
                   | solve [intros X; left; split; [exact X | reflexivity]]
@@ -42,6 +45,9 @@ Proof.
                           | solve [intros X; repeat split; auto]
                           | solve [intros X; apply orb_prop in X as [X|X];
                                    [left; split; [rewrite X; reflexivity | reflexivity]
+                                   |right; left; repeat split; auto; now apply N.eqb_eq]]
+                          | solve [intros X; apply andb_prop in X as [XW X]; apply orb_prop in X as [X|X];
+                                   [left; split; [rewrite XW, X; reflexivity|reflexivity]
                                    |right; left; repeat split; auto; now apply N.eqb_eq]]
                           | solve [intros X; left; split; [|reflexivity];
                                    destruct multi, (r_single R); cbn in X, U |- *; first [exact X | reflexivity | discriminate X | discriminate U]] ] ] ].
